@@ -48,6 +48,7 @@ func runC14(c *Ctx) {
 	c.ruleListenerHarmless("R14.3")
 	c.ruleStatusStrings("R14.4")
 	c.ruleContextRetiredAtomically("R14.5")
+	c.ruleOptionsAllApplied("R14.6")
 }
 
 func orderedSubseq(effects, need []string) bool {
@@ -534,6 +535,8 @@ func runC15(c *Ctx) {
 	c.ruleBindingOrder("R15.5")
 	// the selector's cursor lives in the queue manager: a copy of it loses every advance
 	c.ruleNoStateCopies("R15.7")
+	// a failed visit costs only that queue its turn: the dispatcher goes on with the next selection
+	c.ruleDispatcherLoop("R15.8")
 }
 
 func (c *Ctx) ruleRegisteredOnce(rule string) {
@@ -1050,5 +1053,105 @@ func (c *Ctx) ruleContextRetiredAtomically(rule string) {
 	}
 	if n == 0 {
 		c.Rep.ok(rule, "no lifecycle method replaces the context", "", "nothing to check", false)
+	}
+}
+
+// ruleOptionsAllApplied: every configuration option handed to a constructor takes effect. Every library function with
+// a variadic parameter of options (`...any`, `...ConfigFunc`) either ranges over the whole parameter — a loop without
+// break or return, in which a ConfigFunc element is applied — on every path, or hands the parameter on, spread, to a
+// function that does; it never looks at individual elements (config[i]) to decide something on its own.
+func (c *Ctx) ruleOptionsAllApplied(rule string) {
+	c.Rep.rule(rule, "E2 must-pass-through + def-use", "a variadic parameter of worker options is applied element by element on every path (or passed on, spread, to a function that does) and never indexed", 3)
+	type vf struct {
+		f *Func
+		p types.Object
+	}
+	var fns []vf
+	for _, f := range c.P.pkgFuncs(modPath) {
+		if f.Body == nil || f.Type.Params == nil || len(f.Type.Params.List) == 0 {
+			continue
+		}
+		last := f.Type.Params.List[len(f.Type.Params.List)-1]
+		el, ok := last.Type.(*ast.Ellipsis)
+		if !ok || len(last.Names) != 1 {
+			continue
+		}
+		et := f.Info().TypeOf(el.Elt)
+		if !(types.IsInterface(et) && et.Underlying().(*types.Interface).NumMethods() == 0) && qualTypeName(et) != modPath+".ConfigFunc" {
+			continue
+		}
+		fns = append(fns, vf{f, f.Info().ObjectOf(last.Names[0])})
+	}
+	appliesAll := map[string]bool{}
+	pathsOK := func(x vf) (bool, string, string) {
+		info := x.f.Info()
+		loops := map[string]bool{}
+		ast.Inspect(x.f.Body, func(n ast.Node) bool {
+			if rs, ok := n.(*ast.RangeStmt); ok {
+				if id, ok := ast.Unparen(rs.X).(*ast.Ident); ok && info.ObjectOf(id) == x.p {
+					loops[c.P.pos(rs)] = true
+				}
+			}
+			return true
+		})
+		sr := &seqRule{c: c, rule: rule, noInline: func(*Func) bool { return true }}
+		sr.classify = func(fr *Frame, call *ast.CallExpr, ce *Callee, args []Value) *callEvent {
+			if fr.Caller != nil || !call.Ellipsis.IsValid() || len(call.Args) == 0 {
+				return nil
+			}
+			if id, ok := ast.Unparen(call.Args[len(call.Args)-1]).(*ast.Ident); ok && info.ObjectOf(id) == x.p && appliesAll[ce.Key] {
+				return &callEvent{Name: "applyall", Atomic: true}
+			}
+			return nil
+		}
+		for _, sg := range sr.segments(x.f) {
+			if sg.Kind == "iter" && loops[sg.Loop] && (sg.Exit || sg.has("break") || sg.How == "exit") {
+				return false, sg.End, "the loop over the options is left early"
+			}
+			if sg.Kind != "path" {
+				continue
+			}
+			ok := sg.has("applyall")
+			for l := range loops {
+				if sg.has("loop@" + l) {
+					ok = true
+				}
+			}
+			if !ok {
+				return false, sg.End, "a path returns without applying the options [" + strings.Join(sg.Syms, " ") + "]"
+			}
+		}
+		return true, "", ""
+	}
+	// fixpoint: functions that range over their options, then functions that pass them on to those
+	for changed := true; changed; {
+		changed = false
+		for _, x := range fns {
+			if appliesAll[x.f.Key] {
+				continue
+			}
+			if ok, _, _ := pathsOK(x); ok {
+				appliesAll[x.f.Key] = true
+				changed = true
+			}
+		}
+	}
+	for _, x := range fns {
+		ok, pos, why := pathsOK(x)
+		c.Rep.check(ok, rule, x.f.Short(), "options not applied on every path", pos, "every path applies every option",
+			x.f.Short()+" takes a list of options but "+why+": some options given to the constructor are silently dropped (e.g. a context passed before a trailing concurrency value)")
+		// no element-wise inspection
+		info := x.f.Info()
+		ast.Inspect(x.f.Body, func(n ast.Node) bool {
+			if ix, ok := n.(*ast.IndexExpr); ok {
+				if id, ok := ast.Unparen(ix.X).(*ast.Ident); ok && info.ObjectOf(id) == x.p {
+					c.Rep.fail(rule, x.f.Short(), "option list indexed", c.P.pos(ix), x.f.Short()+" inspects a single element of its option list: a decision taken on one option bypasses the others")
+				}
+			}
+			return true
+		})
+	}
+	if len(fns) == 0 {
+		c.Rep.undecided(rule, "-", "no variadic option parameter found", "", "no function with a variadic option parameter")
 	}
 }
